@@ -29,10 +29,10 @@ func init() { Register("C11", checkC11) }
 
 type byteSet [4]uint64
 
-func allBytes() byteSet            { return byteSet{^uint64(0), ^uint64(0), ^uint64(0), ^uint64(0)} }
-func (s byteSet) has(b byte) bool  { return s[b>>6]&(1<<(b&63)) != 0 }
-func (s *byteSet) add(b byte)      { s[b>>6] |= 1 << (b & 63) }
-func (s *byteSet) del(b byte)      { s[b>>6] &^= 1 << (b & 63) }
+func allBytes() byteSet           { return byteSet{^uint64(0), ^uint64(0), ^uint64(0), ^uint64(0)} }
+func (s byteSet) has(b byte) bool { return s[b>>6]&(1<<(b&63)) != 0 }
+func (s *byteSet) add(b byte)     { s[b>>6] |= 1 << (b & 63) }
+func (s *byteSet) del(b byte)     { s[b>>6] &^= 1 << (b & 63) }
 func (s byteSet) union(t byteSet) byteSet {
 	return byteSet{s[0] | t[0], s[1] | t[1], s[2] | t[2], s[3] | t[3]}
 }
@@ -122,7 +122,7 @@ func sameState(a, b bstate) bool {
 type c11sink struct {
 	instr   ssa.Instruction
 	order   int
-	written string // descriptor of what is written
+	written string    // descriptor of what is written
 	raw     ssa.Value // the loaded byte copied (nil for constants)
 	facts   bstate
 	pos     token.Pos
